@@ -170,7 +170,7 @@ def verify_function(env, contract, budget_ms=10000, prune=True, log=None):
                 meta.append((name, ob, pi, seen[key], m))
                 continue
             seen[key] = len(jobs)
-            jobs.append(solvers.make_job(name, assertions, None, budget_ms))
+            jobs.append(solvers.make_job(name, assertions, None, budget_ms, interp=getattr(env, 'interp', None)))
             meta.append((name, ob, pi, seen[key], m))
     # path feasibility (covers)
     cov_jobs = []
